@@ -327,12 +327,23 @@ def install_state_invariant(lib, rec, to_np):
     hooks = Hooks(rec)
     cls = lib.StabilizerState
 
+    valid_seen = set()
+
     def post(lab, a, k, res):
         st = a[0]
         if not isinstance(st, cls):
             return
-        probs = O.tableau_problems(to_np(st.gs), to_np(st.ps), _scalar(st.r))
         rec.counts["hook.invariant"] = rec.counts.get("hook.invariant", 0) + 1
+        try:
+            g, p = to_np(st.gs), to_np(st.ps)
+            key = (g.tobytes(), p.tobytes(), _scalar(st.r), g.shape)
+        except Exception:
+            key = None
+        if key is not None and key in valid_seen:
+            return
+        probs = O.tableau_problems(to_np(st.gs), to_np(st.ps), _scalar(st.r))
+        if not probs and key is not None and len(valid_seen) < 400000:
+            valid_seen.add(key)
         if probs:
             rec.violation("hook.invariant." + lab.split(".")[-1],
                           {"gs": to_np(st.gs), "ps": to_np(st.ps), "r": _scalar(st.r)},
